@@ -20,6 +20,7 @@ package store
 
 import (
 	"encoding/json"
+	"errors"
 	"fmt"
 	"github.com/nuts-foundation/go-did/vc"
 	"gorm.io/gorm"
@@ -68,6 +69,10 @@ type CredentialStore struct {
 
 // Store stores a Verifiable Credential in the SQL database.
 func (c CredentialStore) Store(db *gorm.DB, credential vc.VerifiableCredential) (*CredentialRecord, error) {
+	if credential.ID == nil {
+		// credentials received from other parties (e.g. through a Discovery Service) are not validated before they are stored
+		return nil, errors.New("credential has no ID")
+	}
 	subjectDID, err := credential.SubjectDID()
 	if err != nil {
 		return nil, fmt.Errorf("failed to extract subject DID: %w", err)
